@@ -17,6 +17,7 @@ EXPLANATION = (
     "`num_elements = set.len()` afterwards; (R1) Hash for Value hashes, per variant, the payload through one of the closed idioms and has no self-recursive "
     "arm; (R4) the set literal evaluator compares every element's kind with the first and exits with Err before constructing the set. Not decided: "
     "Hash/Eq agreement on values (+-0.0, NaN), comprehension semantics."
+    " (R5) a comprehension generator's source expression is evaluated once per binding environment, unconditionally inside the loop over the environments."
 )
 
 ORACLE = {
